@@ -78,7 +78,7 @@ def gen(rng, tier):
                 r['load_pos'] = True
         reqs.append(r)
     return {'kind': kind, 'serials': serials, 'recs': recs, 'header': header, 'requests': reqs,
-            'explicit_colname': rng.random() < 0.3, 'knobs': C.gen_knobs(rng)}
+            'explicit_colname': rng.random() < 0.3, 'knobs': C.gen_knobs(rng), 'failed_call_before': rng.random() < 0.2}
 
 
 # ------------------------------------------------------------ pack9 --------
@@ -296,6 +296,15 @@ def run(case):
                 except Exception as e:
                     violation(out, 'raises:' + type(e).__name__, site + '(colname)', repr(e)[:300])
             return out
+        if case.get('failed_call_before'):
+            # history: an earlier request on the same file failed (a raw column that is not there)
+            for bad in ({'colname': 'no_such_raw_column'}, {'load': ['no_such_output_column']}):
+                try:
+                    with C.environment(knobs):
+                        read_asdf(fn, verbose=False, **bad)
+                except Exception:
+                    pass
+            bump(out['faults'], 'failed-call-before')
         results = []
         for i, req in enumerate(case['requests']):
             kwargs = {'dtype': np.float32 if req['dtype'] == 'f4' else np.float64, 'verbose': False}
